@@ -198,7 +198,7 @@ constraint:
 				for _, co := range c.IndexedColumns {
 					st.column(co.Column).Null = false
 				}
-				if !st.setPK(dropRepeated(st.toIndexColumns(c.IndexedColumns))) {
+				if !st.setPK(st.toIndexColumns(c.IndexedColumns)) {
 					// a key which takes over the index of an earlier UNIQUE
 					// doesn't use up a number
 					autoindex++
@@ -216,6 +216,9 @@ constraint:
 			}
 		}
 	}
+	// Constraints are compared with the key as it is written; what is stored
+	// is the key without its repeated columns.
+	st.PK = dropRepeated(st.PK)
 
 	return st, nil
 }
